@@ -79,6 +79,26 @@ CLAIMS = {
                   "floats); NaN keys and adding a foreign value to an empty SortedSet are outside the property's domain.",
              tech="Coq proof: binary-search invariant, strict-sortedness invariant, refinement to membership predicate / finite map; differential correspondence",
              ref="DESIGN.md §4 C09"),
+ "C11": dict(text="Coq theorems for every file content (bytes) and every offset index: the lines of a file are characterised (joined by '\\n' "
+             "they give the file back; unterminated last line counts, final '\\n' adds none) and the converse; the built index has one "
+             "offset per line and reading at the i-th offset gives the i-th line; f[i] for positive/negative i and any caller-supplied "
+             "index returns the line at that offset, independent of the handle's read position; slices / iterables / list(f) select "
+             "element-wise; a stepped iterator yields f[0], f[1], ... under any interleaving with other accesses and iterators. Tied to "
+             "/repo by running access scripts on real files with all 8 readable classes and 5 index sources.",
+             note="Text and memory-mapped variants are the same function at the byte level (newline='\\n'; byte 10 occurs in no multi-byte "
+                  "UTF-8 sequence): their agreement is established by the correspondence run, not by a theorem. CPython text I/O is "
+                  "summarised as seek-then-readline. Resuming an iterator after close() is outside the property (correspondence only).",
+             tech="Coq proof: scan invariant relating offsets and lines, frame lemmas for the shared cursor; differential correspondence on real files",
+             ref="DESIGN.md §4 C11"),
+ "C12": dict(text="Coq theorems: every edit operation acts on the view like the Python list operation (incl. IndexError/ValueError cases; the "
+             "swap loop of reverse() is list reversal); save writes each line followed by the ending; reopening a file saved with "
+             "'\\n' gives the same list (and the general statement for endings e+'\\n'); dirty is set by any change of content and "
+             "never reset, reads change nothing. Tied to /repo by edit scripts on the 4 mutable classes comparing every result, the "
+             "final list, the saved bytes, the reopened lines and the unchanged source bytes.",
+             note="MutableSequence mix-ins as CPython 3.12 defines them; that no operation writes the source file is checked by the "
+                  "harness (byte comparison), the model has no such write. For endings without '\\n' the byte-level statement is the claim.",
+             tech="Coq proof: list-operation refinement, join/split round-trip; differential correspondence on real files",
+             ref="DESIGN.md §4 C12"),
 }
 ALL = ["C%02d" % i for i in range(1, 21)]
 def chk(pid, c):
